@@ -377,6 +377,17 @@ def run_tabs(ctx, shard, tun):
                 st, txt = ctx.call(TAB.from_Bar, tracks[0].bars[0], width, t)
             elif what == "track":
                 if rng.random() < 0.3:
+                    # rendered once, then a bar is added and the same track is rendered again
+                    ctx.call(TAB.from_Track, tracks[0], width, t)
+                    while True:
+                        b, x, lens = make_bar(rng, opens, meter)
+                        if len(b):
+                            break
+                    tracks[0].add_bar(b)
+                    exps[0] += x
+                    alllens += lens
+                    w["rendered_before_then_extended"] = True
+                if rng.random() < 0.3:
                     # the tuning comes from the track's instrument only; no tuning argument
                     from mingus.containers.instrument import Instrument
                     tracks[0].tuning = None
